@@ -400,6 +400,116 @@ fn diff_one(c: &mut Ctx, fam: &str, idx: u64, bytes: &[u8], kind: &str) {
     }
 }
 
+/// Option-level differential over the RDATA of an OPT record: both codecs
+/// accept or reject the option sequence, see the same (code, data) pairs, and
+/// give the same typed verdict on the options both interpret (COOKIE and
+/// extended error).
+fn opts_one(c: &mut Ctx, fam: &str, idx: u64, rdata: &[u8], kind: &str) {
+    use domain::base::opt::{AllOptData, ComposeOptData, Opt as OldOpt, OptData, UnknownOptData};
+    use domain::new::edns::EdnsOption;
+    use domain::new::rdata::Opt as NewOpt;
+    let ex = || json!({"opt_rdata_hex": hex(rdata), "kind": kind});
+    // reference: a plain TLV walk
+    let mut tlv: Vec<(u16, &[u8], &[u8])> = Vec::new();
+    let mut p = 0;
+    let mut well_formed = true;
+    while p < rdata.len() {
+        if p + 4 > rdata.len() {
+            well_formed = false;
+            break;
+        }
+        let code = u16::from_be_bytes([rdata[p], rdata[p + 1]]);
+        let l = u16::from_be_bytes([rdata[p + 2], rdata[p + 3]]) as usize;
+        if p + 4 + l > rdata.len() {
+            well_formed = false;
+            break;
+        }
+        tlv.push((code, &rdata[p + 4..p + 4 + l], &rdata[p..p + 4 + l]));
+        p += 4 + l;
+    }
+    let r = ctx::catch(|| -> Result<(), (String, String)> {
+        step("old::Opt::from_octets / new::Opt::parse_bytes");
+        let old = OldOpt::from_octets(rdata);
+        let new = <&NewOpt>::parse_bytes(rdata);
+        if old.is_ok() != well_formed || new.is_ok() != well_formed {
+            return Err(("opt:sequence-verdict".into(), format!("option sequence is {}well-formed; established codec {}, new codec {}", if well_formed { "" } else { "not " }, if old.is_ok() { "accepts" } else { "rejects" }, if new.is_ok() { "accepts" } else { "rejects" })));
+        }
+        let (Ok(old), Ok(new)) = (old, new) else { return Ok(()) };
+        // raw pairs
+        step("old::Opt::iter<UnknownOptData>");
+        let mut old_pairs: Vec<(u16, Vec<u8>)> = Vec::new();
+        for o in old.iter::<UnknownOptData<_>>() {
+            let o = o.map_err(|e| ("opt:old-raw-iteration".to_string(), format!("raw iteration fails: {}", e)))?;
+            let mut b = Vec::new();
+            o.compose_option(&mut b).unwrap();
+            old_pairs.push((o.code().to_int(), b));
+        }
+        step("new::Opt::options");
+        let mut new_pairs: Vec<(u16, Vec<u8>, bool)> = Vec::new();
+        for o in new.options() {
+            match o {
+                Ok(o) => {
+                    let b = build_to_vec(&o).ok_or(("opt:new-rebuild".to_string(), "cannot rebuild a parsed option".to_string()))?;
+                    if b.len() < 4 {
+                        return Err(("opt:new-rebuild".into(), "rebuilt option shorter than its header".into()));
+                    }
+                    new_pairs.push((u16::from_be_bytes([b[0], b[1]]), b[4..].to_vec(), true));
+                }
+                Err(u) => new_pairs.push((u.code.code.get(), u.data.as_bytes()[2..].to_vec(), false)),
+            }
+            if new_pairs.len() > 70000 {
+                return Err(("cap:new::Opt::options".into(), "more options than octets".into()));
+            }
+        }
+        let want: Vec<(u16, Vec<u8>)> = tlv.iter().map(|(c, d, _)| (*c, d.to_vec())).collect();
+        if old_pairs != want {
+            return Err(("opt:old-pairs-differ".into(), format!("established codec iterates {} options, the sequence holds {}", old_pairs.len(), want.len())));
+        }
+        if new_pairs.iter().map(|(c, d, _)| (*c, d.clone())).collect::<Vec<_>>() != want {
+            return Err(("opt:new-pairs-differ".into(), format!("new codec iterates {} options, the sequence holds {}", new_pairs.len(), want.len())));
+        }
+        // typed verdicts, option by option
+        for (k, (code, data, whole)) in tlv.iter().enumerate() {
+            if *code != 10 && *code != 15 {
+                continue;
+            }
+            step("old::AllOptData / new::EdnsOption on one option");
+            let old_typed = OldOpt::from_octets(*whole).ok().and_then(|o| o.iter::<AllOptData<_, _>>().next()).map(|r| r.is_ok()).unwrap_or(false);
+            let new_typed = EdnsOption::parse_bytes(whole).is_ok();
+            if new_typed != new_pairs[k].2 {
+                return Err(("opt:new-iterator-vs-parse".into(), format!("option {} (code {}): the iterator and EdnsOption::parse_bytes disagree", k, code)));
+            }
+            let name = if *code == 10 { "COOKIE" } else { "EXT_ERROR" };
+            if *code == 15 && old_typed && !new_typed && data.len() >= 2 && std::str::from_utf8(&data[2..]).is_err() {
+                // the established codec keeps text that is not UTF-8 as raw octets, the new one holds a str
+                c.count("opts_ext_error_text_not_utf8", 1);
+                continue;
+            }
+            if old_typed != new_typed {
+                return Err((format!("opt:typed-verdict:{}", name), format!("option {} ({}, {} octets of data {}): established codec {}, new codec {}", k, name, data.len(), hex(&data[..data.len().min(44)]), if old_typed { "interprets it" } else { "rejects it" }, if new_typed { "interprets it" } else { "rejects it" })));
+            }
+            c.count(if old_typed { "opts_typed_both_interpret" } else { "opts_typed_both_reject" }, 1);
+            if *code == 10 && data.len() == 40 {
+                c.count("opts_cookie_40_octets", 1);
+            }
+        }
+        c.count("opts_sequences_both_accept", 1);
+        Ok(())
+    });
+    match r {
+        Ok(Ok(())) => {}
+        Ok(Err((sig, what))) => {
+            let rp = c.replay_of(fam, idx, ex());
+            c.violation(&sig, &what, rp);
+        }
+        Err(pi) => {
+            let rp = c.replay_of(fam, idx, ex());
+            c.violation(&format!("panic:{}", pi.site()), &format!("panic reading OPT options ({}): {} at {}:{}", kind, pi.msg, pi.file, pi.line), rp);
+        }
+    }
+    c.eval(&("opts", kind, well_formed, tlv.len().min(5), tlv.iter().fold(0u32, |m, t| m | 1 << (t.0 % 32))));
+}
+
 /// Name-level differential at given offsets.
 fn names_one(c: &mut Ctx, fam: &str, idx: u64, bytes: &[u8], offsets: &[usize]) {
     if bytes.len() < 12 {
@@ -735,6 +845,12 @@ fn build_one(c: &mut Ctx, fam: &str, idx: u64, rng: &mut Rng) {
 
 pub fn run(c: &mut Ctx) {
     if let Some(r) = c.replay.clone() {
+        if let Some(h) = r.get("extra").and_then(|e| e.get("opt_rdata_hex")).and_then(|h| h.as_str()) {
+            let oct = unhex(h);
+            let fam = r.get("family").and_then(|f| f.as_str()).unwrap_or("replay").to_string();
+            opts_one(c, &fam, r.get("case").and_then(|x| x.as_u64()).unwrap_or(0), &oct, "replay");
+            return;
+        }
         if let Some(h) = r.get("extra").and_then(|e| e.get("input_hex")).and_then(|h| h.as_str()) {
             let oct = unhex(h);
             let fam = r.get("family").and_then(|f| f.as_str()).unwrap_or("replay").to_string();
@@ -768,6 +884,55 @@ pub fn run(c: &mut Ctx) {
             c.sample(json!({"family": "diff", "kind": kind, "octets": hex(&bytes[..bytes.len().min(64)]), "len": bytes.len()}));
         }
     }
+    let fam = "opts";
+    let total = c.total(150_000, 3_000_000);
+    for idx in c.cases(fam, total) {
+        if c.out_of_time() {
+            break;
+        }
+        let mut rng = c.case_rng(fam, idx);
+        let mut rd = g::options(&mut rng);
+        let kind = match idx % 4 {
+            0 | 1 => "valid",
+            2 => {
+                // one more option whose length sits on a boundary for its code
+                let code = *rng.pick(&[10u16, 10, 10, 15, 8, 11]);
+                let l = *rng.pick(&[0usize, 1, 2, 3, 7, 8, 9, 15, 16, 17, 24, 31, 32, 39, 40, 41, 48]);
+                let at_front = rng.bool();
+                let mut o = code.to_be_bytes().to_vec();
+                o.extend_from_slice(&(l as u16).to_be_bytes());
+                o.extend(rng.bytes(l));
+                if at_front {
+                    o.extend_from_slice(&rd);
+                    rd = o;
+                } else {
+                    rd.extend_from_slice(&o);
+                }
+                "boundary-length"
+            }
+            _ => {
+                if !rd.is_empty() {
+                    match rng.below(4) {
+                        0 => {
+                            let p = rng.below(rd.len());
+                            rd[p] = rng.u8();
+                        }
+                        1 => {
+                            let p = rng.below(rd.len() + 1);
+                            rd.truncate(p);
+                        }
+                        2 => rd.extend(rng.bytes(rng.clone().range(1, 5))),
+                        _ => {
+                            let p = rng.below(rd.len());
+                            rd[p] ^= 1 << rng.below(8);
+                        }
+                    }
+                }
+                "mutated"
+            }
+        };
+        opts_one(c, fam, idx, &rd, kind);
+    }
     let fam = "build";
     let total = c.total(60_000, 1_200_000);
     for idx in c.cases(fam, total) {
@@ -785,5 +950,9 @@ pub fn run(c: &mut Ctx) {
         c.floor("new_messages_beyond_16384", 10);
         c.floor("new-built_pointers", 100);
         c.floor("new_failed_pushes", 10);
+        c.floor("opts_sequences_both_accept", 1000);
+        c.floor("opts_typed_both_interpret", 100);
+        c.floor("opts_typed_both_reject", 100);
+        c.floor("opts_cookie_40_octets", 10);
     }
 }
